@@ -75,6 +75,9 @@ Definition installs_key (own_has : bool) (peer : keymat) (k : option ciph) : boo
   && match k with Some cAES => true | _ => false end
   && key_valid peer.
 
+(* parseServerSecurityAd: the full list when present and non-empty, else the single negotiated value *)
+Definition prefer_list {A} (l single : list A) : list A := match l with [] => single | _ => l end.
+
 (* ---- client against a scripted server ---------------------------------------- *)
 
 Record reply := mkReply {
@@ -122,27 +125,30 @@ Fixpoint client_loop (cms : list meth) (replies : list reply) (avail : Z) (ran :
                 end
        end.
 
+(* setupStreamEncryption, plaintextOutcome and the post-auth ad on the client *)
+Definition client_finish (c : cfg) (s : sscript) (k : option ciph)
+  (auth : bool) (m : meth) (ran : list (meth * bool)) : outcome :=
+  let enc := installs_key (c_haskey c) (s_key s) k in
+  if negb enc && needs_protection c then Err ran
+  else
+    let readable := match s_post s with
+                    | PAbsent => false
+                    | PClear => negb enc
+                    | PSealed => enc && match s_key s with KGood => true | _ => false end
+                    end in
+    if negb readable then Err ran
+    else if rc_rejects (s_post_rc s) then Err ran
+    else Ok (mkR auth enc m ran enc (if enc then Some (KDerived (s_key s)) else None)).
+
 Definition client_hs (c : cfg) (s : sscript) : outcome :=
   if rc_rejects (s_rc s) then Err []
   else
-    let sm := match s_list s with [] => s_single s | l => l end in
-    let sc := match s_clist s with [] => s_csingle s | l => l end in
+    let sm := prefer_list (s_list s) (s_single s) in
+    let sc := prefer_list (s_clist s) (s_csingle s) in
     let n := negotiate (to_lvl (s_auth s)) (c_auth c) (to_lvl (s_enc s)) (c_enc c) sm (c_meths c) sc (c_ciphs c) in
     match n_err n with
     | Some _ => Err []
     | None =>
-        let after (auth : bool) (m : meth) (ran : list (meth * bool)) : outcome :=
-          let enc := installs_key (c_haskey c) (s_key s) (n_ciph n) in
-          if negb enc && needs_protection c then Err ran
-          else
-            let readable := match s_post s with
-                            | PAbsent => false
-                            | PClear => negb enc
-                            | PSealed => enc && match s_key s with KGood => true | _ => false end
-                            end in
-            if negb readable then Err ran
-            else if rc_rejects (s_post_rc s) then Err ran
-            else Ok (mkR auth enc m ran enc (if enc then Some (KDerived (s_key s)) else None)) in
         if is_yes (s_auth s) then
           match sm with
           | [] => Err []
@@ -151,13 +157,13 @@ Definition client_hs (c : cfg) (s : sscript) : outcome :=
               match cms with
               | [] => Err []
               | _ => match client_loop cms (s_replies s) (mask cms) [] with
-                     | LDone m ran => after true m ran
+                     | LDone m ran => client_finish c s (n_ciph n) true m ran
                      | LErr ran => Err ran
                      end
               end
           end
         else if is_rq (c_auth c) then Err []
-        else after false (n_meth n) []
+        else client_finish c s (n_ciph n) false (n_meth n) []
     end.
 
 (* ---- server against a scripted client ----------------------------------------- *)
@@ -196,6 +202,14 @@ Fixpoint server_loop (sm : list meth) (masks : list mstep) (ran : list (meth * b
            end
   end.
 
+(* setupStreamEncryption and plaintextOutcome on the server (the post-auth ad is
+   then written whatever the peer does with it) *)
+Definition server_finish (c : cfg) (s : cscript) (k : option ciph)
+  (auth : bool) (m : meth) (ran : list (meth * bool)) : outcome :=
+  let enc := installs_key (c_haskey c) (q_key s) k in
+  if negb enc && needs_protection c then Err ran
+  else Ok (mkR auth enc m ran enc (if enc then Some (KDerived (q_key s)) else None)).
+
 Definition server_hs (c : cfg) (s : cscript) : outcome :=
   if negb (q_cmd_ok s) then Err []
   else
@@ -204,14 +218,10 @@ Definition server_hs (c : cfg) (s : cscript) : outcome :=
     match n_err n with
     | Some _ => Err []                                  (* DENIED response sent *)
     | None =>
-        let after (auth : bool) (m : meth) (ran : list (meth * bool)) : outcome :=
-          let enc := installs_key (c_haskey c) (q_key s) (n_ciph n) in
-          if negb enc && needs_protection c then Err ran
-          else Ok (mkR auth enc m ran enc (if enc then Some (KDerived (q_key s)) else None)) in
         if n_auth n then
           match server_loop (c_meths c) (q_masks s) [] with
-          | LDone m ran => after true m ran
+          | LDone m ran => server_finish c s (n_ciph n) true m ran
           | LErr ran => Err ran
           end
-        else after false (n_meth n) []
+        else server_finish c s (n_ciph n) false (n_meth n) []
     end.
